@@ -472,9 +472,6 @@ func (x *Exec) mergeVals(conds []string, vals []*Val) *Val {
 
 // defineB defines a shared name unless we are under a binder (then terms stay inline).
 func (s *Script) defineB(x *Exec, hint, sort, term string) string {
-	if x.sc.binder > 0 {
-		return term
-	}
 	return s.define(hint, sort, term)
 }
 
